@@ -492,7 +492,10 @@ class EndpointResponseHandlerGenerator:
 
                             type_service = UnifiedTypeService(self.schemas)
                             response_type = type_service.resolve_schema_type(resp_schema, context)
-                            if self._should_use_cattrs_structure(response_type):
+                            raw_body = self._raw_body_accessor(list(resp_ir.content), response_type)
+                            if raw_body:
+                                writer.write_line(f"return {raw_body}")
+                            elif self._should_use_cattrs_structure(response_type):
                                 self._register_cattrs_import(context)
                                 deserialization_code = self._get_cattrs_deserialization_code(response_type, data_expr)
                                 writer.write_line(f"return {deserialization_code}")
@@ -559,6 +562,20 @@ class EndpointResponseHandlerGenerator:
         context.add_import(f"{context.core_package_name}.exceptions", "HTTPError")
         writer.write_line(f'raise HTTPError(response=response, message="{message}", status_code=response.status_code)')
 
+    @staticmethod
+    def _raw_body_accessor(content_types: list[str], python_type: str) -> str | None:
+        """`response.text` for text/* bodies and `response.content` for binary media types (None: a JSON body)."""
+        if not content_types or python_type not in ("str", "bytes", "Any"):
+            return None
+        if all(ct.startswith("text/") for ct in content_types):
+            return "response.text" if python_type != "bytes" else None
+        if all(
+            ct in ("application/octet-stream", "application/pdf") or ct.startswith(("image/", "audio/", "video/"))
+            for ct in content_types
+        ):
+            return "response.content" if python_type != "str" else None
+        return None
+
     def _is_ndjson_stream(self, strategy: ResponseStrategy) -> bool:
         """True for an application/x-ndjson stream (server-sent event streams keep the SSE parser)."""
         response_ir = strategy.response_ir
@@ -608,6 +625,13 @@ class EndpointResponseHandlerGenerator:
                 writer.write_line("yield json.loads(chunk)")
                 writer.dedent()
                 writer.write_line("return  # Explicit return for async generator")
+            return
+
+        # Text and binary bodies are not JSON
+        content_types = list(strategy.response_ir.content) if strategy.response_ir else []
+        raw_body = self._raw_body_accessor(content_types, strategy.return_type)
+        if raw_body:
+            writer.write_line(f"return {raw_body}")
             return
 
         # Use response.json() directly - no automatic unwrapping
